@@ -16,7 +16,50 @@ def _wrap(expr, dims):
   return expr
 
 
+def gen_pipe(c, uid):
+  """pipelines of stdlib queues connected give -> recv inside (lists of) list-held components: the stdlib
+  connect hooks insert adapter components into the connecting parent, whose generated names must also be
+  proper names"""
+  q = lambda: c.choice(["NormalQueueRTL(Bits8, %d)" % c.choice([1, 2, 3]), "PipeQueueRTL(Bits8, %d)" % c.choice([1, 2]),
+                        "BypassQueueRTL(Bits8, %d)" % c.choice([1, 2])])
+  n = c.randint(1, 3)
+  L = ["from pymtl3 import *", "from pymtl3.stdlib.queues import NormalQueueRTL, PipeQueueRTL, BypassQueueRTL",
+       "from pymtl3.stdlib.ifcs import RecvIfcRTL, GiveIfcRTL", "",
+       "class Pipe_%s(Component):" % uid, "  def construct(s):", "    s.enq = RecvIfcRTL(Bits8)", "    s.deq = GiveIfcRTL(Bits8)"]
+  if c.random() < 0.5:
+    L.append("    s.qs = [%s]" % ", ".join(q() for _ in range(n)))
+    stage = lambda i: "s.qs[%d]" % i
+  else:
+    for i in range(n):
+      L.append("    s.q%d = %s" % (i, q()))
+    stage = lambda i: "s.q%d" % i
+  L.append("    s.enq //= %s.enq" % stage(0))
+  for i in range(n - 1):
+    L.append("    %s.deq //= %s.enq" % (stage(i), stage(i + 1)))
+  L.append("    %s.deq //= s.deq" % stage(n - 1))
+  dims = c.choice([[2], [3], [2, 2], [1, 2], []])
+  cells = []
+
+  def rec(pre, ds):
+    if not ds:
+      cells.append(pre)
+      return
+    for i in range(ds[0]):
+      rec(pre + "[%d]" % i, ds[1:])
+  rec("s.p", dims)
+  L += ["", "class Top_%s(Component):" % uid, "  def construct(s):", "    s.enq = RecvIfcRTL(Bits8)", "    s.deq = GiveIfcRTL(Bits8)",
+        "    s.p = %s" % _wrap("Pipe_%s()" % uid, dims), "    s.enq //= %s.enq" % cells[0]]
+  for a, b in zip(cells, cells[1:]):
+    L.append("    %s.deq //= %s.enq" % (a, b))
+  L.append("    %s.deq //= s.deq" % cells[-1])
+  stats = {"ifc_classes": 2, "comp_classes": 2, "ifc_lists": 0, "nested_ifcs": 0, "method_ports": 0,
+           "comp_lists_nd": int(len(dims) > 1), "struct_ports_in_ifc": 0, "stdlib_adapter_pipelines": 1}
+  return "\n".join(L) + "\n", stats
+
+
 def gen(c, uid):
+  if c.random() < 0.15:
+    return gen_pipe(c, uid)
   L = ["from pymtl3 import *", ""]
   stats = {"ifc_classes": 0, "comp_classes": 0, "ifc_lists": 0, "nested_ifcs": 0, "method_ports": 0,
            "comp_lists_nd": 0, "struct_ports_in_ifc": 0}
